@@ -145,7 +145,10 @@ func Forbid() *Net {
 // IsIPLiteral reports whether hostname (as returned by url.URL.Hostname, i.e. without brackets and port) is an IP address
 // literal in one of the textual forms Go's dialer connects to directly (dotted quad, IPv6, IPv6 with zone).
 func IsIPLiteral(hostname string) bool {
-	h := strings.TrimSuffix(strings.TrimPrefix(hostname, "["), "]")
+	h := hostname
+	if strings.HasPrefix(h, "[") && strings.HasSuffix(h, "]") {
+		h = h[1 : len(h)-1]
+	}
 	_, err := netip.ParseAddr(h)
 	return err == nil
 }
